@@ -6,6 +6,7 @@ import (
 	"strings"
 
 	"github.com/go-shiori/dom"
+	distiller "github.com/markusmobius/go-domdistiller"
 	"golang.org/x/net/html"
 	"verif/harness/eng"
 	"verif/harness/ora"
@@ -97,6 +98,7 @@ func c05Elements(doc *html.Node) []*html.Node {
 var c05Handlers = strings.Fields(`onabort onafterprint onanimationcancel onanimationend onanimationiteration onanimationstart onauxclick onbeforecopy onbeforecut onbeforeinput onbeforematch onbeforepaste onbeforeprint onbeforetoggle onbeforeunload onblur oncancel oncanplay oncanplaythrough onchange onclick onclose oncommand oncontentvisibilityautostatechange oncontextlost oncontextmenu oncontextrestored oncopy oncuechange oncut ondblclick ondrag ondragend ondragenter ondragleave ondragover ondragstart ondrop ondurationchange onemptied onended onerror onfocus onfocusin onfocusout onformdata onfullscreenchange onfullscreenerror ongotpointercapture onhashchange oninput oninvalid onkeydown onkeypress onkeyup onlanguagechange onload onloadeddata onloadedmetadata onloadstart onlostpointercapture onmessage onmessageerror onmousedown onmouseenter onmouseleave onmousemove onmouseout onmouseover onmouseup onmousewheel onoffline ononline onpagehide onpagereveal onpageshow onpageswap onpaste onpause onplay onplaying onpointercancel onpointerdown onpointerenter onpointerleave onpointermove onpointerout onpointerover onpointerrawupdate onpointerup onpopstate onprogress onratechange onreadystatechange onrejectionhandled onreset onresize onscroll onscrollend onscrollsnapchange onscrollsnapchanging onsearch onsecuritypolicyviolation onseeked onseeking onselect onselectionchange onselectstart onslotchange onstalled onstorage onsubmit onsuspend ontimeupdate ontoggle ontouchcancel ontouchend ontouchmove ontouchstart ontransitioncancel ontransitionend ontransitionrun ontransitionstart onunhandledrejection onunload onvolumechange onwaiting onwebkitanimationend onwebkitanimationiteration onwebkitanimationstart onwebkitfullscreenchange onwebkitfullscreenerror onwebkittransitionend onwheel`)
 
 func c05Enumerate(tier string, emit func(*eng.Case)) {
+	crossEmit(tier, "xinert", 1, emit)
 	// every known event-handler attribute on every element (singles)
 	nElAll := len(c05Elements(ora.Parse(c05Skel)))
 	for hi := range c05Handlers {
@@ -173,8 +175,66 @@ func c05Context(n *html.Node) string {
 	return "text"
 }
 
+// c05Inert is the oracle: nothing in the distilled tree can run or restyle.
+func c05Inert(o *eng.Outcome, res *distiller.Result, doc string) {
+	ctxOut := func(n *html.Node) string {
+		for p := n; p != nil; p = p.Parent {
+			if ora.IsPlaceholder(p) && p != n {
+				return "in-placeholder-" + ora.AttrV(p, "data-type")
+			}
+		}
+		return c05Context(n)
+	}
+	ora.Walk(res.Node, func(n *html.Node) bool {
+		if n.Type != html.ElementNode || n == res.Node {
+			return true
+		}
+		if n.Data == "script" || n.Data == "style" {
+			o.V("element:"+n.Data+":"+ctxOut(n), "<%s> element in the distilled HTML (%s); taints: %s", n.Data, ctxOut(n), doc)
+		}
+		ph := ora.IsPlaceholder(n)
+		for _, a := range n.Attr {
+			k := strings.ToLower(a.Key)
+			bad := ""
+			switch {
+			case strings.HasPrefix(k, "on"):
+				bad = "handler"
+			case k == "id" || k == "style":
+				bad = k
+			case k == "class":
+				if !(ph && a.Val == "embed-placeholder") {
+					bad = "class"
+				}
+			case strings.HasPrefix(k, "data-"):
+				if !(ph && (k == "data-type" || k == "data-id")) {
+					bad = "data-attr"
+				}
+			}
+			if bad != "" {
+				o.V("attr:"+bad+":"+n.Data+":"+ctxOut(n), "attribute %s=%q on <%s> in the distilled HTML (%s); taints: %s", a.Key, a.Val, n.Data, ctxOut(n), doc)
+			}
+		}
+		return true
+	})
+}
+
 func c05Check(c *eng.Case) *eng.Outcome {
 	o := &eng.Outcome{}
+	if c.Kind == "xinert" {
+		_, res, err, pi := ora.Run(c)
+		if pi != nil {
+			o.Skipped = pi.Sig()
+			return o
+		}
+		if err != nil || res == nil || res.Node == nil {
+			o.Skipped = "error"
+			return o
+		}
+		c05Inert(o, res, c.Get("doc"))
+		o.Nontrivial = len(ora.OutVisibleWords(res.Node)) >= 20
+		o.Class = fmt.Sprintf("cross %s viol=%d", c.Get("src"), min(len(o.Viol), 2))
+		return o
+	}
 	doc := ora.Parse(c05Skel)
 	els := c05Elements(doc)
 	var descs []string
@@ -245,45 +305,7 @@ func c05Check(c *eng.Case) *eng.Outcome {
 		o.Skipped = "error: " + err.Error()
 		return o
 	}
-	ctxOut := func(n *html.Node) string {
-		for p := n; p != nil; p = p.Parent {
-			if ora.IsPlaceholder(p) && p != n {
-				return "in-placeholder-" + ora.AttrV(p, "data-type")
-			}
-		}
-		return c05Context(n)
-	}
-	ora.Walk(res.Node, func(n *html.Node) bool {
-		if n.Type != html.ElementNode || n == res.Node {
-			return true
-		}
-		if n.Data == "script" || n.Data == "style" {
-			o.V("element:"+n.Data+":"+ctxOut(n), "<%s> element in the distilled HTML (%s); taints: %s", n.Data, ctxOut(n), c.Get("doc"))
-		}
-		ph := ora.IsPlaceholder(n)
-		for _, a := range n.Attr {
-			k := strings.ToLower(a.Key)
-			bad := ""
-			switch {
-			case strings.HasPrefix(k, "on"):
-				bad = "handler"
-			case k == "id" || k == "style":
-				bad = k
-			case k == "class":
-				if !(ph && a.Val == "embed-placeholder") {
-					bad = "class"
-				}
-			case strings.HasPrefix(k, "data-"):
-				if !(ph && (k == "data-type" || k == "data-id")) {
-					bad = "data-attr"
-				}
-			}
-			if bad != "" {
-				o.V("attr:"+bad+":"+n.Data+":"+ctxOut(n), "attribute %s=%q on <%s> in the distilled HTML (%s); taints: %s", a.Key, a.Val, n.Data, ctxOut(n), c.Get("doc"))
-			}
-		}
-		return true
-	})
+	c05Inert(o, res, c.Get("doc"))
 	// non-trivial: every tainted host is represented in the output (by a word or URL marker)
 	out := ora.Render(res.Node)
 	present := len(hosts) > 0
@@ -311,10 +333,11 @@ func init() {
 		ID:        "C05",
 		DesignRef: "§5 C05",
 		Rule: "host document with every element kind that has its own rendering path (text blocks with inline markup, list, img, picture, two figures, video with source/track, data table with image, layout table with font, YouTube and Vimeo iframes, twitter blockquote, blockquote, pre, heading), all retained; " +
-			"every element node of its body x every taint {onclick, onerror, raw upper-case ONLOAD, raw ID/Class/STYLE, id, class, style, data-x, srcdoc, child <script>, child <style>, a child <noscript> whose raw text is markup with handlers and scripts, svg>xmp and math>style children whose text is markup, the same script/style children carrying an inline display style} (quick; singles also under a non-absolute page URL) + {onmouseover, raw ID, data-type, unknown, xmlns:og, on} and a page URL (thorough); all singles and all pairs; plus each of the 137 event-handler attributes of the HTML standard on the elements (quick: every third element per handler; thorough: every element). Taints are applied to the parsed tree, so raw-case keys reach the library. " +
+			"every element node of its body x every taint {onclick, onerror, raw upper-case ONLOAD, raw ID/Class/STYLE, id, class, style, data-x, srcdoc, child <script>, child <style>, a child <noscript> whose raw text is markup with handlers and scripts, svg>xmp and math>style children whose text is markup, the same script/style children carrying an inline display style} (quick; singles also under a non-absolute page URL) + {onmouseover, raw ID, data-type, unknown, xmlns:og, on} and a page URL (thorough); all singles and all pairs; plus each of the 137 event-handler attributes of the HTML standard on the elements (quick: every third element per handler; thorough: every element). Taints are applied to the parsed tree, so raw-case keys reach the library." + crossRule + " " +
 			"Oracle on result.Node: no script/style element; no on* attribute; no id/style; class only 'embed-placeholder' on the placeholder div; data-* only data-type/data-id there. Non-trivial = every tainted host element is represented in the output.",
 		Enumerate: c05Enumerate,
 		Check:     c05Check,
+		Prepare:   func(tier string) { CrossCorpus(tier) },
 		Bounds: func(tier string) map[string]any {
 			nT := c05QuickTaints
 			if tier == "thorough" {
